@@ -86,7 +86,7 @@ PROPS = {
     level_note=LN_HANDLES,
     lean=["C14"],
     scenarios=[handles("atomic", 1600), handles("fullsync", 1600),
-               dict(bin="handles", args=["sub=freerun"], runs=3000, model=False, single=True, model_name="(free-running threads: concurrent clones of a sole shared handle)")],
+               dict(bin="handles", args=["sub=freerun"], runs=3000, model=False, single=True, thorough_scale=20, model_name="(free-running threads: concurrent clones of a sole shared handle)")],
     rule=HANDLES_RULE,
     trusted_base=TB_COMMON,
     assumptions=["setters initialise the slot without reading or dropping its previous bytes"],
@@ -95,7 +95,7 @@ PROPS = {
     level_text="Lean 4 proof: each payload generation is destroyed at most once and exactly once when its last handle is gone, a held slot is never re-allocated or overwritten, capacity is restored when everything is released (handles model); teardown: a general theorem characterises the field orders under which dropping a channel with buffered handles touches no freed pool memory, instantiated by `decide` on the field orders GENERATED from the current source on every run. Tied to the code by step-level replay + child-process teardown histories with an instrumented payload.",
     level_note=LN_HANDLES + " The teardown model is a region protocol (pool alive/freed): the allocator-level use-after-free itself is only observed on the real code as a crash of the child process.",
     lean=["C05"],
-    scenarios=[handles("atomic", 1200), handles("fullsync", 1200), dict(bin="teardown", args=[], runs=100, model=False, single=True, model_name="Teardown (generated field orders)")],
+    scenarios=[handles("atomic", 1200), handles("fullsync", 1200), dict(bin="teardown", args=[], runs=100, model=False, single=True, thorough_scale=10, model_name="Teardown (generated field orders)")],
     rule=HANDLES_RULE + "; teardown: histories (events sent, consumed, handles released before/after) per channel kind, each in a child process",
     trusted_base=TB_COMMON + ["tools/extract.py (field-order translator): a mis-parse makes the generated obligation fail or pass wrongly; its output is committed to the evidence"],
     assumptions=["payload handles do not outlive their channel", "setters initialise the slot without reading or dropping its previous bytes"],
@@ -106,7 +106,7 @@ PROPS = {
     lean=["C18", "C02_LockRing"],
     scenarios=[dict(bin="misc", args=["sub=stack"], runs=1200, model_name="M12b Stack"), dict(bin="misc", args=["sub=plstack"], runs=800, model_name="M12b Stack"),
                dict(bin="misc", args=["sub=aqueue"], runs=800, model=False, model_name="(oracle only)"), dict(bin="misc", args=["sub=fqueue"], runs=800, model=False, model_name="(oracle only)"),
-               dict(bin="misc", args=["sub=freerun"], runs=2, model=False, single=True, model_name="(free running)")],
+               dict(bin="misc", args=["sub=freerun"], runs=2, model=False, single=True, thorough_scale=30, model_name="(free running)")],
     rule="2-4 threads with random push/pop (enqueue/dequeue) scripts on capacity 2/4/8; scheduler picks at every hook; DISTINCT by trace hash; NON-TRIVIAL if a full/empty answer occurs or a thread spins on the flag",
     trusted_base=TB_COMMON + ["parking_lot::RawMutex is a mutex"],
     assumptions=[],
@@ -186,7 +186,7 @@ PROPS = {
     level_text="Lean 4 proof about the per-item decision function of the four executor kinds (transcribed from the spawn_* functions) folded over ANY item list: the three counters add up to the number of items, each item feeds exactly one, the error callback runs once per failed item and never otherwise, a failed or timed-out item does not stop the fold, with a futures timeout every slow item is counted as timed out, and the event machine never has more item futures in flight than the limit. Tied to the code at history level: the counters handed to the real close callback, the error-callback invocation count and the measured maximum of concurrently running item futures of real tokio runs are compared with the model's fold (every kind x timeout x instruments x limit 1-8 x random item sequences).",
     level_note="The decision table is hand-transcribed (model M10); tokio::time::timeout cancels at the deadline and futures::for_each{,_concurrent} respects its limit and visits every item - contracts, trusted and measured. Metrics-enabled instruments only (without metrics nothing is counted, by design); the fifth, internal spawn_non_futures_executor (failures counted, no callback parameter) is outside the four kinds of the property; concurrency_limit = 0 means unlimited in futures 0.3 and is outside the quantifier (limits 1..8).",
     lean=["C11"],
-    scenarios=[dict(bin="exec", args=["sub=account"], runs=160, model_name="M10 Exec"), dict(bin="exec", args=["sub=account", "rt=multi"], runs=12, single=True, model_name="M10 Exec")],
+    scenarios=[dict(bin="exec", args=["sub=account"], runs=160, model_name="M10 Exec", thorough_scale=40), dict(bin="exec", args=["sub=account", "rt=multi"], runs=12, single=True, thorough_scale=10, model_name="M10 Exec")],
     rule="random executor kind, timeout on/off (futures kinds), instruments in {metrics, logs+metrics, none}, limit 1-8, 0-12 items over {ok, err, slow, slow-then-err}; paused-clock current-thread tokio runtime (+ a few multi-thread real-time runs); DISTINCT by trace hash; NON-TRIVIAL if the sequence contains an error or a slow item",
     trusted_base=TB_COMMON + ["tokio (task scheduling, paused clock, time::timeout) and futures 0.3 (for_each, for_each_concurrent) behave as documented"],
     assumptions=["metrics enabled"],
@@ -195,8 +195,8 @@ PROPS = {
     level_text="Lean 4 proof about the event machine of one executor and its channel (accepted / yielded / finished / close called / close returned / callback; internal steps: flush sees nothing pending -> cancel; cancelled stream ends when nothing is buffered; for_each drops the stream after the item in flight, for_each_concurrent as soon as the stream ended): for sequential executors and for non-future items, whenever close has returned every event accepted before the call is processed, nothing is in flight, the stream is dropped; accepted events are never discarded (pending ++ inflight ++ finished is a permutation of the accepted ids); counterexample theorem for concurrent executors with future items (recorded finding). Tied to the code at history level: event logs of real Uni runs on tokio must be accepted by the machine (they are, including the failing ones) and are judged by the oracle.",
     level_note="Model M11 covers closes with an unbounded timeout; tokio / futures contracts trusted (which orders occur is observed, the model allows every order they could choose). Known finding D6.",
     lean=["C06"],
-    scenarios=[dict(bin="exec", args=["sub=close"], runs=200, model_name="M11 Exec", kinds=["close_before_processed", "panic"]), dict(bin="exec", args=["sub=close", "rt=multi"], runs=12, single=True, model_name="M11 Exec", kinds=["close_before_processed", "panic"]),
-               dict(bin="exec", args=["sub=mclose"], runs=80, single=True, model_name="M11 Exec (one event machine per listener)", kinds=["close_before_processed", "close_callback_count", "panic"])],
+    scenarios=[dict(bin="exec", args=["sub=close"], runs=200, thorough_scale=40, model_name="M11 Exec", kinds=["close_before_processed", "panic"]), dict(bin="exec", args=["sub=close", "rt=multi"], runs=12, single=True, thorough_scale=10, model_name="M11 Exec", kinds=["close_before_processed", "panic"]),
+               dict(bin="exec", args=["sub=mclose"], runs=80, single=True, thorough_scale=10, model_name="M11 Exec (one event machine per listener)", kinds=["close_before_processed", "close_callback_count", "panic"])],
     rule="random executor kind, limit 1-4, 0-6 events (sync / future / slow / failing items), close() called 1 ms after the sends (events buffered and / or in flight); `mclose`: the five queue-per-listener Multi kinds with 2-3 listeners (sequential futures executors) whose items take 0 / 3 / 10 ms, 1-12 events; DISTINCT by event log; NON-TRIVIAL if more than one event",
     trusted_base=TB_COMMON + ["tokio and futures 0.3 contracts as in C11"],
     assumptions=["unbounded close timeout"],
@@ -205,10 +205,10 @@ PROPS = {
     level_text="Lean 4 proof on the same event machine: the close callback occurs at most once, only when the stream is dropped and nothing is in flight, and no item is yielded or finished after it, for every executor kind and limit; status word: register_execution_finish only produces one of the two ended states and ProgrammaticallyEnded exactly from ScheduledToFinish (remark theorem: a report_scheduled_to_finish store landing after it leaves a non-ended status); the Uni latch fires the user callback exactly once, at the n-th executor; with the newies executor spawned inside the oldies' callback every old item is processed before any new one. Tied to the code at history level (event logs of real tokio runs; status and start/finish deltas read inside the real callback).",
     level_note="Model M10/M11; tokio / futures contracts trusted; the status race of the remark theorem was searched for on the real code and not exhibited (it needs flush_and_cancel_executor concurrent with the stream's own end).",
     lean=["C12"],
-    scenarios=[dict(bin="exec", args=["sub=close"], runs=200, model_name="M11 Exec", kinds=["close_callback_count", "callback_before_last_item", "status_not_ended", "finish_before_start", "panic"]),
-               dict(bin="exec", args=["sub=account"], runs=100, model_name="M10 Exec", kinds=["close_callback_count", "panic"]),
-               dict(bin="exec", args=["sub=mcancel"], runs=150, model=False, single=True, model_name="(oracle only: Multi executors removed individually)", kinds=["close_callback_count", "status_not_ended", "programmatically_ended_unscheduled", "finish_before_start", "callback_before_last_item", "cancel_refused", "panic"]),
-               dict(bin="exec", args=["sub=transition"], runs=80, model=False, single=True, model_name="(oracle only: log-channel Multi, oldies -> newies)", kinds=["new_before_old", "transition_lost_or_duplicated", "close_callback_count", "close_failed", "panic"])],
+    scenarios=[dict(bin="exec", args=["sub=close"], runs=200, thorough_scale=40, model_name="M11 Exec", kinds=["close_callback_count", "callback_before_last_item", "status_not_ended", "finish_before_start", "panic"]),
+               dict(bin="exec", args=["sub=account"], runs=100, thorough_scale=40, model_name="M10 Exec", kinds=["close_callback_count", "panic"]),
+               dict(bin="exec", args=["sub=mcancel"], runs=150, model=False, single=True, thorough_scale=10, model_name="(oracle only: Multi executors removed individually)", kinds=["close_callback_count", "status_not_ended", "programmatically_ended_unscheduled", "finish_before_start", "callback_before_last_item", "cancel_refused", "panic"]),
+               dict(bin="exec", args=["sub=transition"], runs=80, model=False, single=True, thorough_scale=10, model_name="(oracle only: log-channel Multi, oldies -> newies)", kinds=["new_before_old", "transition_lost_or_duplicated", "close_callback_count", "close_failed", "panic"])],
     rule="as C06/C11; DISTINCT by event log",
     trusted_base=TB_COMMON + ["tokio and futures 0.3 contracts as in C11"],
     assumptions=[],
